@@ -4,7 +4,7 @@
   C04/Model.lean, so every theorem about `newchar`/`lnewchar` is a theorem about
   the code that indexes the buffer.
 -/
-import IgrisModel.C04.Drv
+import IgrisModel.C04.More
 import IgrisModel.C05.LemmasOvf
 namespace Igris.Gstuff
 open Igris.Proto Igris.C17
